@@ -1190,6 +1190,27 @@ def build_kinds():
                   sub=SH("chart.plots") + [["idx", 0], ["attr", "series"], ["idx", 0], ["attr", "marker"]],
                   cost=2, rows=marker_rows()))
 
+    # a marker that also carries fill and line formatting (c:marker/c:spPr): size and style are independent of it
+    def prep_marker_fmt(anchor):
+        from pptx.dml.color import RGBColor
+        from pptx.util import Pt
+
+        fmt = anchor.marker.format
+        fmt.fill.solid()
+        fmt.fill.fore_color.rgb = RGBColor(0xC0, 0x10, 0x20)
+        fmt.line.width = Pt(2)
+
+    MARKER_FMT_READINGS = {"fill_type": lambda o, ch: o.format.fill.type,
+                           "fill_rgb": lambda o, ch: o.format.fill.fore_color.rgb,
+                           "line_width": lambda o, ch: int(o.format.line.width)}
+    K.append(Kind("marker-line-fmt", "Marker", b_line_chart,
+                  sub=SH("chart.plots") + [["idx", 0], ["attr", "series"], ["idx", 0]], sub2=[["attr", "marker"]],
+                  prepare=prep_marker_fmt, cost=2, rows=marker_rows(), readings=MARKER_FMT_READINGS))
+    K.append(Kind("marker-point-fmt", "Marker", b_line_chart,
+                  sub=SH("chart.plots") + [["idx", 0], ["attr", "series"], ["idx", 0], ["attr", "points"], ["idx", 1]],
+                  sub2=[["attr", "marker"]], prepare=prep_marker_fmt, cost=2, rows=marker_rows(),
+                  readings=MARKER_FMT_READINGS))
+
     # ---- titles (chart/chart.py:214-226, chart/axis.py:274-279)
     def prep_chart_title(anchor):
         anchor.has_title = True
